@@ -11,8 +11,7 @@
     items does this attribute value denote?) is NOT modelled here: every string argument travels
     with the facts the implementation derives from it ([name_info], [data_info]), computed by the
     harness with the public functions of crate [xml_parser].  The tree and order theorems hold
-    for arbitrary such facts.  Character offsets are modelled ([usize] = [N] below [2^64], debug
-    build: overflow of [offset + count] panics).
+    for arbitrary such facts.  Character offsets are modelled ([usize] = [N]; counts are clipped).
 
     The model follows the repaired code (branch agent-dom).  No proofs in this file. *)
 From Coq Require Import List NArith Bool.
@@ -215,10 +214,10 @@ Definition insert_data (s : store) (n : id) (k : kind) (off : N) (d : data_info)
   else if valid_for k d then (set_str s n (splice (data_of s n) off (d_str d)), Ok RUnit)
        else (s, Failed InfoErr).
 
+(** after the CharacterData fix of main (7ec0908): the count is clipped, [offset + count] saturates *)
 Definition delete_data (s : store) (n : id) (off cnt : N) : store * outcome :=
-  if two64 <=? off + cnt then (s, Panicked)
-  else if len (data_of s n) <? off + cnt then (s, Failed IndexSizeErr)
-       else (set_str s n (cut (data_of s n) off cnt), Ok RUnit).
+  if len (data_of s n) <? off then (s, Failed IndexSizeErr)
+  else (set_str s n (cut (data_of s n) off cnt), Ok RUnit).
 
 Definition replace_data (s : store) (n : id) (k : kind) (off cnt : N) (d : data_info) : store * outcome :=
   match delete_data s n off cnt with
@@ -521,7 +520,7 @@ Definition step (w : world) (o : op) : world * outcome :=
   | CreateEntityReference d name =>
     on_document w d (fun s =>
       if n_ref name
-      then if entity_known s (n_str name)
+      then if entity_declared s (n_str name)
            then factory (fst d) s (new_item KEr None (n_str name) [] false None)
            else (s, Failed InfoErr)
       else (s, Failed InvalidCharacterErr))
